@@ -18,6 +18,8 @@ func init() {
 	reg("C19_CounterNoLostUpdate", C19_CounterNoLostUpdate)
 	reg("C19_FlagConcurrent", C19_FlagConcurrent)
 	reg("C19_RepriceWhileExecuting", C19_RepriceWhileExecuting)
+	reg("C19_CounterLinearizable", C19_CounterLinearizable)
+	reg("C19_FlagLinearizable", C19_FlagLinearizable)
 }
 
 // ---------------------------------------------------------------------------------------
@@ -394,4 +396,126 @@ func disciplineCheck(s *Scn, fields ...string) {
 	s.Run()
 	verif.MonitorOn(false)
 	verif.Reach("ran", true)
+}
+
+// counterOp runs operation op of the real Counter (argument v) and returns what it returned.
+func counterOp(c *atomic.Counter, op int, v int64) int64 {
+	switch op {
+	case 0:
+		c.Set(v)
+		return 0
+	case 1:
+		return c.Increment()
+	case 2:
+		return c.Add(v)
+	case 3:
+		return c.Decrement()
+	case 4:
+		return c.Subtract(v)
+	case 5:
+		return c.Get()
+	case 6:
+		return c.Reset()
+	}
+	return int64(c.GetUint64())
+}
+
+// counterSpec is the sequential specification: new state and returned value.
+func counterSpec(st int64, op int, v int64) (int64, int64) {
+	switch op {
+	case 0:
+		return v, 0
+	case 1:
+		return st + 1, st + 1
+	case 2:
+		return st + v, st + v
+	case 3:
+		return st - 1, st - 1
+	case 4:
+		return st - v, st - v
+	case 5:
+		return st, st
+	case 6:
+		return 0, st
+	}
+	if st < 0 {
+		return st, 0
+	}
+	return st, st
+}
+
+// C19_CounterLinearizable: any two operations of the counter (Set, Increment, Add, Decrement,
+// Subtract, Get, Reset, GetUint64; arbitrary arguments and initial value) run concurrently return
+// what one of the two sequential orders returns and leave that order's final value - in
+// particular no update falls between the halves of another operation (Reset returns and clears
+// in one step).
+func C19_CounterLinearizable() {
+	var c atomic.Counter
+	verif.AtomicFields(&c, "Counter", "value")
+	verif.MonitorOn(true)
+	v0 := int64(verif.U64("v0"))
+	c.Set(v0)
+	opA, opB := verif.Choose("opA", 8), verif.Choose("opB", 8)
+	x, y := int64(verif.U64("x")), int64(verif.U64("y"))
+	var rA, rB int64
+	verif.Spawn(func() { rA = counterOp(&c, opA, x) })
+	verif.Spawn(func() { rB = counterOp(&c, opB, y) })
+	verif.Join()
+	final := c.Get()
+	// order A;B
+	s1, a1 := counterSpec(v0, opA, x)
+	s12, b1 := counterSpec(s1, opB, y)
+	// order B;A
+	s2, b2 := counterSpec(v0, opB, y)
+	s21, a2 := counterSpec(s2, opA, x)
+	verif.Assert("linearizable", verif.Or(verif.And(rA == a1, rB == b1, final == s12), verif.And(rA == a2, rB == b2, final == s21)))
+	verif.Reach("done", true)
+	verif.Reach("reset-with-update", opA == 6 && opB == 1)
+}
+
+// C19_FlagLinearizable: the same for the flag (Set, Unset, IsSet, Toggle(true), Toggle(false)).
+func C19_FlagLinearizable() {
+	var f atomic.Flag
+	verif.AtomicFields(&f, "Flag", "value")
+	verif.MonitorOn(true)
+	init := verif.Bool("initially.set")
+	f.Toggle(init)
+	flagOp := func(op int) bool {
+		switch op {
+		case 0:
+			return f.Set()
+		case 1:
+			f.Unset()
+		case 2:
+			return f.IsSet()
+		case 3:
+			f.Toggle(true)
+		case 4:
+			f.Toggle(false)
+		}
+		return false
+	}
+	spec := func(st bool, op int) (bool, bool) {
+		switch op {
+		case 0:
+			return true, st
+		case 1, 4:
+			return false, false
+		case 2:
+			return st, st
+		}
+		return true, false
+	}
+	opA, opB := verif.Choose("opA", 5), verif.Choose("opB", 5)
+	var rA, rB bool
+	verif.Spawn(func() { rA = flagOp(opA) })
+	verif.Spawn(func() { rB = flagOp(opB) })
+	verif.Join()
+	final := f.IsSet()
+	s1, a1 := spec(init, opA)
+	s12, b1 := spec(s1, opB)
+	s2, b2 := spec(init, opB)
+	s21, a2 := spec(s2, opA)
+	verif.Assert("linearizable", verif.Or(verif.And(rA == a1, rB == b1, final == s12), verif.And(rA == a2, rB == b2, final == s21)))
+	verif.Reach("done", true)
 }
